@@ -215,3 +215,101 @@ def component_loop(fn, method, count_atoms=COUNT_ATOMS):
                 return False, w
         return True, 'loop %s calls components_[i]->%s with component i of every state parameter' % (why, method)
     return False, why
+
+
+# ---------------------------------------------------------------------------------------------------------------------
+# erase-while-iterating discipline
+
+def erase_loops(fn):
+    """loops of fn whose body re-assigns a loop iterator from container.erase(iterator):
+    yields (loop node, iterator key, erase-assignment node)"""
+    for lp in fn.walk():
+        if lp['k'] not in ('WhileStmt', 'ForStmt', 'DoStmt') or not lp.get('body'):
+            continue
+        for x in fn.walk(lp['body']):
+            if (x['k'] == 'CXXOperatorCallExpr' and x.get('oop') == '=') or (x['k'] == 'BinaryOperator' and x.get('op') == '='):
+                lhs = key(fn, x['ch'][0])
+                if lhs is None:
+                    continue
+                rhs = fn.strip(x['ch'][1])
+                if rhs is not None and (rhs.get('callee') or '').endswith('::erase') and rhs['k'] == 'CXXMemberCallExpr':
+                    a = args(fn, rhs)
+                    if a and any(y['k'] == 'DeclRefExpr' and '%s#%d' % (y.get('name'), y.get('did')) == lhs for y in fn.walk(a[0])):
+                        # innermost loop only
+                        inner = [z for z in fn.ancestors(x['id']) if z['k'] in ('WhileStmt', 'ForStmt', 'DoStmt')]
+                        if inner and inner[0]['id'] == lp['id']:
+                            yield lp, lhs, x
+
+
+def advance_counts(fn, sid, itkey):
+    """set of (number of times the iterator is advanced, how the path ends) over the AST paths through statement sid;
+    an advance is ++it / it++ / it = c.erase(it) / std::advance / it = std::next(it); ends: 'fall', 'continue', 'break', 'return'"""
+    n = fn.nodes.get(sid)
+    if n is None:
+        return {(0, 'fall')}
+    k = n['k']
+    if k == 'CompoundStmt':
+        cur = {(0, 'fall')}
+        for c in n['ch']:
+            nxt = set()
+            for (cnt, end) in cur:
+                if end != 'fall':
+                    nxt.add((cnt, end))
+                    continue
+                for (c2, e2) in advance_counts(fn, c, itkey):
+                    nxt.add((min(cnt + c2, 3), e2))
+            cur = nxt
+        return cur
+    if k == 'IfStmt':
+        out = set(advance_counts(fn, n['then'], itkey))
+        out |= advance_counts(fn, n['else'], itkey) if n.get('else') else {(0, 'fall')}
+        return out
+    if k == 'ContinueStmt':
+        return {(0, 'continue')}
+    if k == 'BreakStmt':
+        return {(0, 'break')}
+    if k == 'ReturnStmt':
+        return {(0, 'return')}
+    if k in ('WhileStmt', 'ForStmt', 'DoStmt', 'CXXForRangeStmt', 'SwitchStmt'):
+        # a nested loop that touches the iterator is outside the fragment
+        if any(x['k'] == 'DeclRefExpr' and '%s#%d' % (x.get('name'), x.get('did')) == itkey for x in fn.walk(sid)
+               if any(p.get('op') in ('++', '--', '=') or p.get('oop') in ('++', '--', '=') for p in fn.ancestors(x['id']) if p['id'] != sid)):
+            return {(3, 'fall')}
+        return {(0, 'fall')}
+    cnt = 0
+    for x in fn.walk(sid):
+        if x['k'] == 'UnaryOperator' and x.get('op') == '++' and key(fn, x['ch'][0]) == itkey:
+            cnt += 1
+        elif x['k'] == 'CXXOperatorCallExpr' and x.get('oop') == '++' and x['ch'] and key(fn, x['ch'][0]) == itkey:
+            cnt += 1
+        elif ((x['k'] == 'CXXOperatorCallExpr' and x.get('oop') == '=') or (x['k'] == 'BinaryOperator' and x.get('op') == '=')) and \
+                x['ch'] and key(fn, x['ch'][0]) == itkey:
+            rhs = fn.strip(x['ch'][1])
+            if rhs is not None and ((rhs.get('callee') or '').endswith('::erase') or (rhs.get('callee') or '') in ('std::next',)):
+                cnt += 1
+            else:
+                cnt = 3          # re-assigned from something else: not decidable here
+        elif (x.get('callee') or '') == 'std::advance' and x['ch'] and key(fn, x['ch'][0]) == itkey:
+            cnt += 1
+    return {(min(cnt, 3), 'fall')}
+
+
+def erase_loop_verdict(fn, lp, itkey):
+    """None if on every path through one iteration that stays in the loop the iterator advances exactly once (counting a
+    for-loop's own increment); else a description"""
+    body = advance_counts(fn, lp['body'], itkey)
+    inc = 0
+    if lp['k'] == 'ForStmt' and lp.get('inc'):
+        inc = max((c for (c, e) in advance_counts(fn, lp['inc'], itkey)), default=0)
+    for (cnt, end) in sorted(body):
+        if end in ('break', 'return'):
+            continue
+        total = cnt + inc
+        if cnt >= 3:
+            return 'the iterator is re-assigned in a way this rule does not follow'
+        if total == 0:
+            return 'a path through the loop body does not advance the iterator at all'
+        if total >= 2:
+            return ('a path through the loop body advances the iterator %d times (e.g. it = c.erase(it), which already yields the next '
+                    'element, followed by the loop\'s own ++it): the element after an erased one is skipped' % total)
+    return None
